@@ -114,12 +114,19 @@ class ClohessyWiltshire(AnalyticalPropagator):
         orb = self.orbit
 
         # Maneuvers handling
+        # The orbit is the state at its own date: a maneuver dated before it (the list
+        # carried along by a propagated state still names it) has already had its effect
         for man in self.orbit.maneuvers:
-            if isinstance(man, ImpulsiveMan) and date >= man.date:
+            if isinstance(man, ImpulsiveMan) and orb.date <= man.date <= date:
                 orb = self._propagate(man.date, orb)
                 orb[3:] += man.dv(orb)
-            elif isinstance(man, ContinuousMan) and date >= man.start:
-                orb = self._propagate(man.start, orb)
+            elif (
+                isinstance(man, ContinuousMan)
+                and date >= man.start
+                and man.stop > orb.date
+            ):
+                if man.start > orb.date:
+                    orb = self._propagate(man.start, orb)
                 if man.check(date):
                     # If the date of propagation is during a continuous maneuver
                     return self._propagate(date, orb, man.accel(orb))
